@@ -10,7 +10,7 @@ a 16-byte aligned local (stack alignment at the call) and a gcc-assembled trampo
 import os, shutil
 from vlib import core, tgen, igen
 
-HDR = ('int printf(const char*,...);\nvoid *memset(void*,int,unsigned long);\n'
+HDR = ('int printf(const char*,...);\nvoid *memset(void*,int,unsigned long);\nenum ENEG { EN_LO = -1000000, EN_HI = 1000000 };\n'
        '#define LOG(...) printf(__VA_ARGS__)\n')
 
 MAIN = r'''
@@ -57,8 +57,8 @@ int main(int argc, char **argv) {
 '''
 
 SCALARS = [('char', 'i'), ('unsigned char', 'i'), ('short', 'i'), ('unsigned short', 'i'), ('int', 'i'), ('unsigned', 'i'), ('long', 'i'),
-           ('unsigned long', 'i'), ('_Bool', 'b'), ('float', 'f'), ('double', 'f'), ('long double', 'f'), ('char *', 'p')]
-WIDTH = {'char': 7, 'unsigned char': 8, 'short': 15, 'unsigned short': 16, 'int': 31, 'unsigned': 32, 'long': 62, 'unsigned long': 62}
+           ('unsigned long', 'i'), ('_Bool', 'b'), ('float', 'f'), ('double', 'f'), ('long double', 'f'), ('char *', 'p'), ('enum ENEG', 'i')]
+WIDTH = {'enum ENEG': 20, 'char': 7, 'unsigned char': 8, 'short': 15, 'unsigned short': 16, 'int': 31, 'unsigned': 32, 'long': 62, 'unsigned long': 62}
 
 
 class P:
@@ -116,8 +116,18 @@ class SigGen:
         ch = self.ch
         self.nagg += 1
         tag = 'S%d_%d' % (self.k, self.nagg)
-        g = tgen.TGen(ch, allow_bf=ch.int(0, 3) == 0, allow_packed=False, allow_aligned=False, allow_union=True, allow_ld=False,
-                      allow_anon=True, max_fields=ch.choice([1, 2, 2, 3, 4, 5]), excl={})
+        special = ch.int(0, 11)
+        if special == 0:
+            # an over-aligned aggregate of class MEMORY: its stack slot is aligned to 16 (never more) by caller and callee alike
+            al = ch.choice([16, 32])
+            self.feat.add('agg:overaligned-memory')
+            lv = [('.m0', 'i', 'long', None), ('.m1', 'i', 'long', None), ('.m2', 'f', 'double', None)]
+            return P('struct %s' % tag, 'struct %s { _Alignas(%d) long m0; long m1; double m2; };' % (tag, al), lv, 'agg')
+        packed = special == 1
+        if packed:
+            self.feat.add('agg:packed')
+        g = tgen.TGen(ch, allow_bf=(ch.int(0, 3) == 0) and not packed, allow_packed=packed, allow_aligned=False, allow_union=True, allow_ld=False,
+                      allow_anon=True, max_fields=ch.choice([1, 2, 2, 3, 4, 5]), excl={}, force_packed=packed)
         self.excl['D17'] = self.excl.get('D17', 0) + 1       # long double members never drawn (recorded finding D17)
         a = g.agg(ch.int(0, 1), tag=tag)
 
@@ -350,7 +360,7 @@ class C06:
     id = 'C06'
     level = 'exploration'
     rule = ('cases = function signatures: 0..7 long and 0..9 double filler parameters (shuffled) exhausting GP/SSE registers, then 0..5 parameters from 13 scalar types and random '
-            'struct/union types (1..5 members, nested, arrays, bit-fields, all eightbyte class mixes, sizes above and below 16 bytes), return type void/scalar/aggregate, fixed or '
+            'struct/union types (1..5 members, nested, arrays, bit-fields, all eightbyte class mixes, sizes above and below 16 bytes, packed structs with unaligned members, over-aligned structs passed in memory) and an enumerated type with negative values, return type void/scalar/aggregate, fixed or '
             'variadic (va_arg walk over int/long/unsigned/double/long double/pointers/structs > 16 bytes), call placed as initializer, assignment, argument of another call or under '
             'pending temporaries. Each signature is linked as (gcc,gcc) reference [must equal (clang,gcc)], (chibicc,gcc), (gcc,chibicc), (chibicc,chibicc); callee logs every parameter '
             'leaf and its stack alignment, caller logs returned leaves, an assembly trampoline checks rbx/rbp/rsp/r12-r15. non-trivial = aggregate parameter or return, variadic, register '
